@@ -21,11 +21,13 @@
                                        then -1 all_done stuck, then per thread: pc outcome-or-0
      12  seq op                        spec_result ; 13 seq op  spec_result_raising
      20..33                            C12 model (even) / spec (odd), see dispatch
-     34  l a b c (options)             py_slice ; 35 islice ; 36 l k py_index *)
+     34  l a b c (options)             py_slice ; 35 islice ; 36 l k py_index
+     40  rrule constructor arguments   the recorded _original_rule dictionary (RReplace.record) *)
 Require Extraction.
 Require Import ExtrOcamlBasic.
 From Coq Require Import ZArith List Bool.
 From V Require Import rcache.PyList rcache.RCacheModel rcache.RCacheSpec rcache.RQueryModel rcache.RQuerySpec.
+From V Require rr.RRBase rr.RRNorm rcache.RReplace.
 Import ListNotations.
 Open Scope Z_scope.
 
@@ -210,6 +212,62 @@ Definition with_prog (args : list Z) (k : bool -> bool -> list Z -> list op -> l
   | [] => [-1]
   end.
 
+(* ---------------------------------------------------------------- C12, replace(): _original_rule *)
+
+(* option list: 0 | 1 n x1..xn *)
+Definition dec_olist (l : list Z) : option (option (list Z) * list Z) :=
+  match l with
+  | 0 :: r => Some (None, r)
+  | _ :: r => match take_list r with Some (v, rest) => Some (Some v, rest) | None => None end
+  | [] => None
+  end.
+
+Fixpoint zpairs (l : list Z) : list (Z * Z) :=
+  match l with a :: b :: r => (a, b) :: zpairs r | _ => [] end.
+
+Fixpoint dec_olists (n : nat) (l : list Z) : option (list (option (list Z)) * list Z) :=
+  match n with
+  | O => Some ([], l)
+  | S k => match dec_olist l with
+           | Some (v, rest) => match dec_olists k rest with
+                               | Some (vs, rest') => Some (v :: vs, rest')
+                               | None => None
+                               end
+           | None => None
+           end
+  end.
+
+Definition enc_ent (e : RReplace.ent Z) : list Z :=
+  match e with RReplace.Absent => [0] | RReplace.RNone => [1] | RReplace.RVal v => 2 :: n2z (length v) :: v end.
+Definition enc_ent_pairs (e : RReplace.ent (Z * Z)) : list Z :=
+  match e with
+  | RReplace.Absent => [0] | RReplace.RNone => [1]
+  | RReplace.RVal v => 2 :: n2z (length v) :: flat_map (fun wn => [fst wn; snd wn]) v
+  end.
+
+(* freq isdate y m d H M S interval, then bysetpos bymonth bymonthday byyearday byeaster byweekno byhour
+   byminute bysecond (option lists), then byweekday (option list of flattened pairs) *)
+Definition record_entry (args : list Z) : list Z :=
+  match args with
+  | fr :: isd :: y :: m :: d :: hh :: mm :: ss :: itv :: rest =>
+      match dec_olists 9 rest with
+      | Some ([bsp; bm; bmd; byd; be; bwn; bh; bmi; bs], rest2) =>
+          match dec_olist rest2 with
+          | Some (bwd, []) =>
+              let r := RRNorm.mkRaw fr (z2b isd) y m d hh mm ss itv 0 None None false
+                             bsp bm bmd byd be bwn (option_map zpairs bwd) bh bmi bs in
+              let o := RReplace.record r in
+              enc_ent (RReplace.o_bysetpos o) ++ enc_ent (RReplace.o_bymonth o) ++ enc_ent (RReplace.o_bymonthday o) ++
+              enc_ent (RReplace.o_byyearday o) ++ enc_ent (RReplace.o_byeaster o) ++ enc_ent (RReplace.o_byweekno o) ++
+              enc_ent (RReplace.o_byhour o) ++ enc_ent (RReplace.o_byminute o) ++ enc_ent (RReplace.o_bysecond o) ++
+              enc_ent_pairs (RReplace.o_byweekday o)
+          | _ => [-1]
+          end
+      | _ => [-1]
+      end
+  | _ => [-1]
+  end.
+
 (* ---------------------------------------------------------------- C12 *)
 
 Definition dec_item (l : list Z) : option item :=
@@ -277,6 +335,7 @@ Definition dispatch (n : Z) (args : list Z) : list Z :=
             match rest with
             | [fa; a; fb; b; fc; c] => enc_qres (of_slice (islice l (dec_opt fa a) (dec_opt fb b) (dec_opt fc c)))
             | _ => [-1] end)
+  | 40 => record_entry args
   | 36 => with_list args (fun _ l rest =>
             match rest with [k] => enc_qres (of_index (py_index l k)) | _ => [-1] end)
   | _ => [-1]
